@@ -1155,10 +1155,10 @@ Section Main.
       assert (Ht2 : is_task root (set_task t tk2 s1)).
       { apply (is_task_upd s1 _ t None tk2 root U2). destruct Ht as (o1 & tk1 & Hgr). exists o1, tk1.
         rewrite Old; [exact Hgr|rewrite Hgr; discriminate]. }
-      exists spec'. fold deps. fold tk2. destruct deps as [|d ds] eqn:Ed.
+      exists spec'. fold deps. fold tk2. destruct (futs (extract y')) as [|d ds] eqn:Ed.
       + apply CInv_intro; [exact Hr'|cbn; eauto|exact HS2|exact Ht2|].
         exists tk2. destruct U2 as (G2 & _). split; [exact G2|]. intros h Hin. cbn [tk_last tk2] in Hin.
-        exfalso. assert (In h deps) by (unfold deps; apply in_or_app; right; apply futs_in; apply extract_same_elements; exact Hin).
+        exfalso. assert (In h (futs (extract y'))) by (apply futs_in; apply extract_same_elements; exact Hin).
         rewrite Ed in H. destruct H.
       + apply CInv_intro; [exact Hr'|exact Hfr|exact HS2|exact Ht2|exact I].
     - (* Enter *)
